@@ -17,7 +17,7 @@ CHECKS = {
    "DESIGN.md §2 C07"),
  "C20": ("model_checking", "E1-choice",
    "stateless choice-tree exploration of encrypted containers (OOXML-in-CFB, BIFF8 FILEPASS, ods manifests) and of unencrypted workbooks on the real readers",
-   "Encrypted OOXML packages (6 sizes around the mini-stream cutoff, 4 EncryptionInfo variants, DataSpaces storage or not) in CFB layouts (v3/v4, 5 sector orders, directory variations) opened with Xlsx and Xlsb; BIFF8 workbooks with FILEPASS of 4 kinds at both legal positions with garbled record bodies; ods manifests with encryption-data on the first, a middle, the last, all or several of 3-5 entries: every one must fail with the reader's Password error. Conversely unencrypted xlsx (every C01 encoding), xlsb, xls (CFB layouts, extra streams, WRITEPROTECT) and ods workbooks whose names and strings spell the trigger words must open. Full product for ods/plain (thorough: all families), <=3 deviations otherwise.",
+   "Encrypted OOXML packages (6 sizes around the mini-stream cutoff, 4 EncryptionInfo variants, DataSpaces storage or not) in CFB layouts (v3/v4, 5 sector orders, directory variations, stale bytes after name terminators) opened with Xlsx and Xlsb; BIFF8 workbooks with FILEPASS of 4 kinds at both legal positions with garbled record bodies; ods manifests with encryption-data on the first, a middle, the last, all or several of 3-5 entries: every one must fail with the reader's Password error. Conversely unencrypted xlsx (every C01 encoding), xlsb, xls (CFB layouts, extra streams, WRITEPROTECT) and ods workbooks whose names and strings spell the trigger words must open. Full product for ods/plain (thorough: all families), <=3 deviations otherwise.",
    "Trusted: the container writers; ciphertext is pseudo-random.",
    "DESIGN.md §2 C20"),
  "C18": ("model_checking", "E1-choice",
@@ -27,12 +27,12 @@ CHECKS = {
    "DESIGN.md §2 C18"),
  "C15": ("model_checking", "E1-choice",
    "complete enumeration of master formulas (templates x reference alphabet) x offsets through the real translator vs a reference shift; choice-tree exploration of group shapes end to end",
-   "(a) 30 formula templates (function names ending in digits, sheet-qualified / quoted / non-ASCII sheet names, strings with cell-like text and doubled quotes, exponent numbers, names with digits) with 16 references (all absolute/relative combinations at A1, Z10, AA5, ZZ100) in every slot are translated by every offset of a window through the real replace_cell_names and compared with the piecewise reference shift; (b) groups of 7 shapes (1-D and 2-D) at 3 master positions with every master formula, a second group, swapped si order, a non-member cell inside the range, prefix and implicit references are read through worksheet_formula (<=2, thorough 3 deviations): every member must carry its translated formula, other cells theirs.",
+   "(a) 30 formula templates (function names ending in digits, sheet-qualified / quoted / non-ASCII sheet names, strings with cell-like text and doubled quotes, exponent numbers, names with digits) with 16 references (all absolute/relative combinations at A1, Z10, AA5, ZZ100) in every slot are translated by every offset of a window through the real replace_cell_names and compared with the piecewise reference shift; (b) groups of 7 shapes (1-D and 2-D) at 3 master positions with every master formula, the master not being the top-left cell of the declared range, a second group, swapped si order, a non-member cell inside the range, prefix and implicit references are read through worksheet_formula (<=2, thorough 3 deviations): every member must carry its translated formula, other cells theirs.",
    "Trusted: the piece-list reference in props/c15.rs and gen/xlsx.rs. Offsets keep references inside the sheet.",
    "DESIGN.md §2 C15"),
  "C14": ("model_checking", "E1-choice",
    "complete enumeration of formula ASTs up to depth 2 (thorough: + depth 3 layer) serialised to BIFF8/BIFF12 token streams and rendered by the real parsers, vs the AST's own A1 renderer; sub-lattice end to end at cell positions",
-   "About 160 k (thorough 4 M) ASTs per binary format over cell refs (4 absolute/relative combinations x columns A..IV/XFD x first/last row), areas, 3-D refs and areas through a non-identity XTI table, defined names, int/float/8- and 16-bit string/bool/error literals, unary, 15 binary, parentheses, fixed- and variable-arity functions and PtgAttrSum are serialised in both operand classes and rendered by the real xls and xlsb token parsers; every 41st (thorough 7th) is also written into FORMULA / BrtFmla* records in windows at A1 and at the last cell and read through worksheet_formula (placement and emptiness of other cells checked); xlsx and ods stored-text formulas with XML-special characters at every subset of 4 positions, explicit and implicit cell references.",
+   "About 160 k (thorough 4 M) ASTs per binary format over cell refs (4 absolute/relative combinations x columns A..IV/XFD x first/last row), areas, 3-D refs and areas through a non-identity XTI table, defined names, int/float/8- and 16-bit string/bool/error literals, unary, 15 binary, parentheses, fixed- and variable-arity functions and PtgAttrSum are serialised in both operand classes and rendered by the real xls and xlsb token parsers; every 41st (thorough 7th) is also written into FORMULA / BrtFmla* records in windows at A1 and at the last cell and read through worksheet_formula (placement and emptiness of other cells checked), cycling a formula-less name record before the used names and (xls) sheet substreams stored in reverse of BoundSheet8 order; xlsx and ods stored-text formulas with XML-special characters at every subset of 4 positions, explicit and implicit cell references.",
    "Trusted: model/formula.rs (AST renderer and Ptg serialiser written from MS-XLS 2.5.198 / MS-XLSB 2.5.97; relative flags: bit 14 column, bit 15 row). Strings without double quotes, sheet names that need no quoting.",
    "DESIGN.md §2 C14"),
  "C17": ("model_checking", "E1-choice",
@@ -47,7 +47,7 @@ CHECKS = {
    "DESIGN.md §2 C08"),
  "C16": ("model_checking", "E1-choice",
    "stateless choice-tree exploration of workbook metadata (sheet lists, names, visibility, kinds, defined names, date system) in four formats on the real readers",
-   "Workbooks with 0-3 sheets over 8 names (XML specials, quotes, non-ASCII, astral, 31 characters), every visibility and every sheet kind the format can express, 0-2 reference-valued defined names, both date systems with a date cell on every worksheet, xlsx prefix / xls name packing: all choice vectors with <=3 (thorough 4) deviations plus the full product over one-sheet workbooks; sheet_names, sheets_metadata, defined_names and the date cells are compared exactly and in order.",
+   "Workbooks with 0-3 sheets over 8 names (XML specials, quotes, non-ASCII, astral, 31 characters), every visibility and every sheet kind the format can express, 0-2 reference-valued defined names, both date systems with a date cell on every worksheet, xlsx prefix / xls name packing / xls substreams in reverse of BoundSheet8 order / a formula-less name record first (xls, xlsb): all choice vectors with <=3 (thorough 4) deviations plus the full product over one-sheet workbooks; sheet_names, sheets_metadata, defined_names and the date cells are compared exactly and in order.",
    "Trusted: the four writers; defined names are reference-valued only.",
    "DESIGN.md §2 C16"),
  "C10": ("model_checking", "E1-choice",
@@ -72,17 +72,17 @@ CHECKS = {
    "DESIGN.md §2 C03"),
  "C12": ("model_checking", "E1-choice",
    "stateless choice-tree exploration: every legal set of CONTINUE cut points x per-segment 8/16-bit packing of small shared-string tables on the real reader",
-   "1364 single-string, 1764 two-string and 256 three-string tables over {ASCII, Latin-1, BMP-only, astral} characters with rich-run / ExtRst variants are serialised under every subset of legal cut points and every packing of compressible segments (full product on small tables, <=2/3 deviations otherwise), plus 9000- and 32767-character strings cut at the 8224-byte limit; LABEL, FORMULA+STRING and sheet names in both packings; every cell referencing every string is compared.",
+   "single-, two- and three-string tables (all texts of <=3 characters, quick: + 4-character texts without the astral character) over {ASCII, Latin-1, C1 control U+0091, BMP-only, astral} characters with rich-run / ExtRst variants are serialised under every subset of legal cut points and every packing of compressible segments (full product on small tables, <=2/3 deviations otherwise), plus 9000- and 32767-character strings cut at the 8224-byte limit; LABEL, FORMULA+STRING and sheet names in both packings; every cell referencing every string is compared.",
    "Trusted: the SST serialiser in gen/biff8.rs; cuts inside headers / surrogate pairs are not generated.",
    "DESIGN.md §2 C12"),
  "C13": ("model_checking", "E1-choice",
    "stateless choice-tree exploration of stream sets x physical compound-file layouts through the real Cfb reader",
-   "138 stream sets with sizes around the 64-byte mini sector, the 4096 mini-stream cutoff and sector multiples are written in every combination (thorough: full 4608-layout product; quick: <=2 deviations + full product on 6 sets) of v3/v4, 8 sector orders, 4 mini-sector orders, unused directory entries, directory order, free sectors, extra FAT sectors, free mini sectors; thorough adds a 15 MB stream with a full DIFAT sector. Streams must come back byte-exact.",
+   "138 stream sets with sizes around the 64-byte mini sector, the 4096 mini-stream cutoff and sector multiples are written in every combination (thorough: full 9216-layout product; quick: <=2 deviations + full product on 6 sets) of v3/v4, 8 sector orders, 4 mini-sector orders, unused directory entries, directory order, free sectors, extra FAT sectors, free mini sectors, stale bytes after the name terminator; thorough adds a 15 MB stream with a full DIFAT sector. Streams must come back byte-exact. End to end, an xls workbook (small / above the cutoff) in every such layout must read the same cells as in the default layout.",
    "Trusted: gen/cfb.rs (MS-CFB). The directory red-black colouring is not varied.",
    "DESIGN.md §2 C13"),
  "C01": ("model_checking", "E1-choice",
    "stateless choice-tree exploration of logical xlsx sheets x legal physical encodings on the real reader vs a map model",
-   "Every sheet with <=2 (thorough 3) cells of 22 kinds in a 3x4 window at four anchors (A1 .. XFD1048576 corner) is written under every choice vector with <=2 (thorough 3) deviations over cell kinds and 10 encoding variation points, plus the full 4096-encoding product on representative sheets; each file is read through worksheet_range and worksheet_range_ref and compared cell-by-cell and bound-by-bound with the model.",
+   "Every sheet with <=2 (thorough 3) cells of 22 kinds in a 3x4 window at four anchors (A1 .. XFD1048576 corner) is written under every choice vector with <=2 (thorough 3) deviations over cell kinds and 11 encoding variation points (incl. relationship ids in shuffled order), plus the full encoding product on representative sheets; each file is read through worksheet_range and worksheet_range_ref and compared cell-by-cell and bound-by-bound with the model.",
    "Trusted: the independent writer gen/xlsx.rs (ECMA-376) and the map model; inputs outside the alphabet (relationship prefixes other than r:, extLst children, _xHHHH_ escapes) are not generated.",
    "DESIGN.md §2 C01"),
  "C04": ("model_checking", "E1-choice",
